@@ -15,6 +15,7 @@ mod c04;
 mod c06;
 mod c07;
 mod c08;
+mod c09;
 mod scen;
 mod c10;
 mod c11;
@@ -65,6 +66,7 @@ fn main() {
         "C06" => c06::run(&args),
         "C07" => c07::run(&args),
         "C08" => c08::run(&args),
+        "C09" => c09::run(&args),
         "C10" => c10::run(&args),
         "C11" => c11::run(&args),
         "C12" => c12::run(&args),
@@ -125,6 +127,7 @@ fn replay(path: &str) -> i32 {
         "C06" => c06::replay(r),
         "C07" => c07::replay(r),
         "C08" => c08::replay(r),
+        "C09" => c09::replay(r),
         "C10" => c10::replay(r),
         "C11" => c11::replay(r),
         "C12" => c12::replay(r),
